@@ -9,15 +9,20 @@ def differs(m):
 
 
 def classify(r):
-    exp = sorted({m["file"] for m in r["muts"] if differs(m)})
+    exp = set()
+    for m in r["muts"]:
+        if differs(m):
+            exp |= set(m.get("group") or [m["file"]])
     kinds = "+".join(sorted({m["kind"] for m in r["muts"]})) or "none"
     kinds = "overwrite-%s/%s" % (r.get("overwrite", "always"), kinds)
-    if sorted(r["differs_actual"]) != exp:
+    if any(len(m.get("group") or []) > 1 for m in r["muts"]) or r["set"] == "links":
+        kinds += "/hard-linked"
+    if sorted(r["differs_actual"]) != sorted(exp):
         return None
-    rep = sorted(r["reported"])
-    if set(exp) - set(rep):
+    rep = set(r["reported"])
+    if any(differs(m) and not (rep & set(m.get("group") or [m["file"]])) for m in r["muts"]):
         return "verify/%s/difference-not-reported" % kinds
-    if set(rep) - set(exp):
+    if rep - exp:
         return "verify/%s/unchanged-file-reported" % kinds
     if r["failfast_err"] != bool(exp):
         return "verify/%s/%s" % (kinds, "fail-fast-run-succeeds-despite-difference" if exp else "fail-fast-run-fails-without-difference")
@@ -47,5 +52,6 @@ def run(ctx):
                         ["Fn_Verify.tla: a tampering makes a file differ iff flip / truncate below size / extend by > 0 / remove; the set of files VerifyFiles reports (collecting Error callback) must equal that set and the default fail-fast run must fail iff the set is non-empty; TLC evaluates RecOK on every record; the harness' own byte comparison must agree with the spec's Differs",
                          "files <= 3.2 KB: every byte position (single-bit change) and every truncation length in the thorough tier, 64 seeded positions + blob boundaries in the quick tier; large files (zero chunk, 30 blobs): blob boundaries +-1, first/last/middle, seeded positions",
                          "tampering keeps the mtime (except 'touch'/'rewrite' controls), so nothing but the content distinguishes the file",
+                         "a third snapshot holds hard-link groups (2 and 3 links, single- and multi-blob, across directories), a file whose other link is not in the snapshot and files that get one more hard link outside the target after the restore; tampering goes in place through any one link; of a group one reported path suffices",
                          "fresh restore into an empty directory (every file is 'restored', none skipped) under each of --overwrite always / if-changed / if-newer / never (modes rotate over the tamperings; content-only changes additionally always run under if-changed); the demand does not depend on the mode",
                          "'flip' resets the mtime to the snapshot's mtime (what restore had set), 'flipnow' leaves the new mtime"])
